@@ -330,6 +330,13 @@ theorem lf_deliver (cfg : Cfg) {nd : Node A} (b : Blk) (p : Chain) (h : LF nd) :
 theorem lf_step (cfg : Cfg) {nd : Node A} (o : Op) (h : LF nd) : LF (step cfg nd o).1 := by
   cases o with
   | deliver b p => exact lf_deliver cfg b p h
+  | header b p =>
+    simp only [step]
+    split
+    · exact h
+    · split
+      · exact h
+      · exact h
   | flushReq => exact lf_flushRequired
   | flushIfNeeded => exact lf_flushIfNeeded cfg _ h
   | flushPeriodic =>
